@@ -129,6 +129,9 @@ fn reference_check(c: &Case, out: &Outcome, cfg: RefCfg, force_ambiguous: bool) 
     if out.panicked.is_some() {
         return Ok(());
     }
+    // "the final error holds exactly one report for each fault": what was reported must also be
+    // what the returned error holds (and Ok only if nothing was reported)
+    check_c01(out)?;
     let mut r = reference(c.cat, c.ty, c.payload);
     r.required.retain(|s| (cfg.report_class)(&class_of_sig(s)));
     r.optional.retain(|s| (cfg.report_class)(&class_of_sig(s)));
@@ -240,7 +243,7 @@ pub fn spec(prop: &str) -> Option<PropSpec> {
             let cfg = RefCfg { asp: Aspects { status: true, value: true, reports: true, visited: true, calls: false }, report_class: cls, call_class: any_call };
             PropSpec {
                 id: "C07",
-                groups: &["A", "B1", "B2", "B3", "B4", "C2", "G"],
+                groups: &["A", "B1", "B2", "B3", "B4", "B5", "C2", "G"],
                 scripts: Scripts::KeepOnly,
                 adversarial: false,
                 uses_reference: true,
@@ -258,7 +261,7 @@ pub fn spec(prop: &str) -> Option<PropSpec> {
             let cfg = RefCfg { asp: Aspects::ALL, report_class: cls, call_class: calls };
             PropSpec {
                 id: "C08",
-                groups: &["A", "B1", "B2", "B4", "C2", "G"],
+                groups: &["A", "B1", "B2", "B4", "B5", "C2", "G"],
                 scripts: Scripts::KeepOnly,
                 adversarial: false,
                 uses_reference: true,
@@ -276,7 +279,7 @@ pub fn spec(prop: &str) -> Option<PropSpec> {
             let cfg = RefCfg { asp: Aspects { status: false, value: false, reports: true, visited: false, calls: true }, report_class: cls, call_class: calls };
             PropSpec {
                 id: "C09",
-                groups: &["A", "B1", "B3", "B4", "C2", "D", "G"],
+                groups: &["A", "B1", "B3", "B4", "B5", "C2", "D", "G"],
                 scripts: Scripts::KeepOnly,
                 adversarial: false,
                 uses_reference: true,
